@@ -472,6 +472,21 @@ UNDECIDABLE_REFACTORS = {
     "R14_6": ("C14",),   # vendored euler_from_matrix split into helpers: the
                          # summary (A4) was derived from the original code
     "R14_8": ("C14",),   # same function, middle angle hoisted out of the `if`
+    # wave 7
+    "R09_10": ("C09", "C01", "C02", "C10", "C12"),
+    #                      rotation angles vectorised: one scipy Rotation for
+    #                      the whole batch and so3_log_angle re-based on the
+    #                      batch of one — needs the batch semantics of
+    #                      Rotation.from_matrix / as_rotvec, which the term
+    #                      language does not model
+    "R10_10": ("C10",),  # path increments from a generator with its own
+    #                      state (previous pose) feeding a shared greedy
+    #                      search: generators with carried state are opaque
+    "R16_10": ("C13",),  # merge accumulation moved into helpers that iterate
+    #                      [r.stats for r in results][1:]: a list built by a
+    #                      map and iterated again is not read through to its
+    #                      source (tried; changes the canonical terms of
+    #                      C10 / C13 / C20 rules on the pinned tree)
 }
 
 
